@@ -20,6 +20,9 @@ FAMILIES = {
         {'family': 'core', 'knobs': {'frag': 100, 'mode': 'msg'}, 'quick': 100, 'thorough': 2000, 'first': 100000},
         # an interaction is ended while a fragmented frame of it is half-written (the CANCEL / ERROR is handled with the sender blocked)
         {'family': 'midframe', 'knobs': {}, 'quick': 200, 'thorough': 3000, 'first': 950000},
+        # ... and the emitter itself goes on (next element, completion) while the sender is inside the write of the j-th fragment of its frame,
+        # the last one included: what it signalled reaches the peer (C05.terminal_not_lost)
+        {'family': 'midframe', 'knobs': {'p_own_end': 1.0}, 'quick': 150, 'thorough': 2500, 'first': 960000},
         {'family': 'lease', 'knobs': {'lease_cancel': True}, 'quick': 150, 'thorough': 2500, 'first': 300000, 'also': ('C08.first_frame_is_request',)},
         {'family': 'core', 'knobs': {}, 'quick': 100, 'thorough': 2000, 'first': 200000},
         {'family': 'tlccover2', 'knobs': {}, 'quick': 0, 'thorough': 0, 'first': 800000},
